@@ -116,4 +116,15 @@ def Ev.about (c : Nat) : Ev → Bool
   | .encrypt c' => c' == c
   | _ => false
 
+/-! ### whose pin an incoming encrypted stanza is checked against
+
+`AxolotlReceivelayer` looks the sender up under `getAuthor(False)`: the `participant` attribute when the stanza has one — a group
+message, a status update, a broadcast-list message: the chat (`from`) is then not a contact at all — and `from` otherwise. -/
+
+/-- `MessageProtocolEntity.getAuthor` for an incoming stanza (chat jid, optional participant) -/
+def author {J : Type} (chat : J) (participant : Option J) : J :=
+  match participant with
+  | some p => p
+  | none => chat
+
 end Yow.Trust
